@@ -73,6 +73,24 @@ def thin(prop, tier, name, ops, nslots, nblocks, frames, maxlen, simulate=None):
                  simulate=simulate)
 
 
+UNINIT_MODULES = ["Uninit.tla", "MC_Uninit.tla"]
+UNINIT_OPS = ["NewUninit", "Write", "ArcWrite", "AsMutSlice", "Clone", "Drop", "Shareable", "TryUnique", "AssumeInit"]
+
+
+def uninit(prop, tier, name, nslots, nblocks, maxlen, simulate=None):
+    cfg = "\n".join(["SPECIFICATION Spec", "CONSTANTS", "  NSlots = %d" % nslots, "  NBlocks = %d" % nblocks, "  MaxLen = %d" % maxlen,
+                     "  KeepHist = TRUE", "  Ops = %s" % S.tla_set(UNINIT_OPS), "VIEW CanonView", "INVARIANT Invariants",
+                     "PROPERTY ActionsOK", "ACTION_CONSTRAINT Emit", "CHECK_DEADLOCK FALSE", ""])
+    return stage(S.graph_replay, prop, tier, name, "uninit", "MC_Uninit.tla", UNINIT_MODULES, cfg, nslots, simulate=simulate)
+
+
+def c15(tier, seed):
+    if tier == "quick":
+        return [uninit("C15", tier, "uninit_q", 3, 2, 2), uninit("C15", tier, "uninit_walks_q", 5, 4, 4, simulate=(500, 40, seed))]
+    return [uninit("C15", tier, "uninit_t", 3, 2, 3), uninit("C15", tier, "uninit_t4", 4, 2, 2),
+            uninit("C15", tier, "uninit_walks_t", 5, 4, 5, simulate=(10000, 60, seed))]
+
+
 def c10(tier, seed):
     if tier == "quick":
         return [thin("C10", tier, "thin_q", THIN_OPS, 3, 2, 1, 1),
@@ -174,6 +192,7 @@ PROPS = {
     "C05": {"level": "model_checking", "stages": c05, "assumptions": LAYOUT_ASSUME, "replay": any_replay},
     "C11": {"level": "model_checking", "stages": c11, "assumptions": LAYOUT_ASSUME + GRAPH_ASSUME, "replay": any_replay},
     "C10": {"level": "model_checking", "stages": c10, "assumptions": GRAPH_ASSUME + LAYOUT_ASSUME, "replay": any_replay},
+    "C15": {"level": "model_checking", "stages": c15, "assumptions": GRAPH_ASSUME, "replay": any_replay},
     "C02": {"level": "model_checking", "stages": c02, "assumptions": MM_ASSUME, "replay": any_replay},
     "C01": {"level": "model_checking", "stages": c01, "assumptions": GRAPH_ASSUME, "replay": any_replay},
     "C03": {"level": "model_checking", "stages": c03, "assumptions": GRAPH_ASSUME + MM_ASSUME, "replay": any_replay},
